@@ -18,6 +18,11 @@ functools.wraps / @create_after / @task_params / create_doit_tasks attributes / 
 creators), imported and loaded for real; the model gets, per object of the namespace, the facts _get_task_creators asks for and
 the definition line the harness computed from the text it wrote (never from inspect).
 
+Result values (harness/c18_values.py): the VALUE a creator gives -- every top-level Python type in its falsy and truthy form,
+dicts without actions, None, empty generators -- returned or yielded (alone, after / before valid sub-tasks, from nested
+generators), by static and by create_after creators, through generate_tasks, load_tasks, the commands in-process and the real
+command line; oracle from the property text (`oracle_invalid` / `oracle_names` there), model Loader.v [pyres] / [classify].
+
 Encoding compared (list of ints), see Loader.v `enc`:
   accepted   0, #tasks, then per task: name, has_subtask, subtask_of or -1, #task_dep, the task_deps
              (a string = its length followed by its character codes)
@@ -872,7 +877,10 @@ def run(ctx):
                 'dangling task_dep/setup/calc_dep/getargs) ; all pairs (attribute, tag) over 9 tags in the thorough tier (a sample in quick); '
                 'random namespaces of 1-3 creators with nested generators, Task objects, group definitions, delayed creators; '
                 'definition order: dodo modules written as source text (every kind of decorator x where it is defined x both namespace orders, '
-                'each creator form one by one, random mixes of 3-8 definitions) imported and loaded for real.  '
+                'each creator form one by one, random mixes of 3-8 definitions) imported and loaded for real; '
+                'result values: every top-level Python type in its falsy and truthy form, dicts without actions, None, empty generators x '
+                '{returned, yielded alone / after / before valid sub-tasks, nested 1-3 deep} x {static, create_after(executed), create_after(), '
+                'create_after(creates)} creators, through generate_tasks, load_tasks, the commands in-process and the real command line.  '
                 'non-trivial = distinct case (kind, label); every case is a distinct input')
     groups = [gen_single_fault(), gen_elements(), gen_rules()]
     pairs = gen_pairs(ctx)
@@ -932,13 +940,17 @@ def run(ctx):
         return 4
     out.violations.sort(key=severity)
     part_delayed_invalid(ctx, out)
+    # the VALUE a creator gives (falsy / truthy non-tasks, dicts without actions, None, empty generators) in every position,
+    # for static and create_after creators, through generate_tasks / load_tasks / the commands (harness/c18_values.py)
+    import c18_values as V
+    V.run_part(ctx, out, model_cases)
     shapes = {}
     for v in out.violations:
         e = shapes.setdefault(v['shape'], dict(count=0, what=v['what'], example=v['case']))
         e['count'] += 1
     out.extra['violation_shapes'] = shapes
-    out.evaluations = len(model_cases) + out.extra.get('delayed_invalid_runs', 0)
-    pre = PRE + 'Definition cmds0 : list string := [%s].\n' % '; '.join(cstr(x) for x in cmd_names())
+    out.evaluations = len(model_cases) + out.extra.get('delayed_invalid_runs', 0) + out.extra.get('result_values', {}).get('command_line_runs', 0)
+    pre = PRE + V.PRE_EXTRA + 'Definition cmds0 : list string := [%s].\n' % '; '.join(cstr(x) for x in cmd_names())
     bad = compare(ctx, pre, model_cases)
     out.traces_validated = len(model_cases)
     for i, m in bad:
@@ -951,6 +963,9 @@ def run(ctx):
         'the definition line of every task-creator (inspect.getsourcelines) is an input of the model: the check computes it from the source text it generated (symbolic evaluation of the decorators), never by asking inspect; for the namespaces built in-process all creators share one line and the order is the one of the dict',
         'creators whose source inspect cannot read (exec / eval, functools.partial as create_doit_tasks) are not generated',
         'the parameters given by @task_params, result_dep objects in uptodate and BaseAction instances in clean/teardown are not modelled',
+        'result values (harness/c18_values.py): values the model has no constructor for (bytes, set, frozenset, range, complex, Decimal, Fraction, deque, OrderedDict, defaultdict, mappingproxy, iterators, objects with __bool__ / __len__) are judged by the oracle only; all others are also compared with Loader.classify / generate_tasks_py / load_py',
+        'a create_after creator whose result is rejected when the RUN calls it (TaskDispatcher._add_task): the oracle asks for a non-zero exit code, a diagnostic naming the creator, no traceback and none of its tasks executed -- the code gives exit 2 (run aborted), not 3, because tasks have already been executed (same reading as for the dangling dependencies of run-time tasks, fix 8f57713)',
+        'importlib.metadata.entry_points (plugin discovery, unrelated to loading) is memoised while the in-process commands of the result-value part run',
     ]
     out.extra['trusted_base'] = ['mapping of concrete Python values to the tags of Model/Loader.v (harness/c18.py to_py / to_coq)']
     return out
@@ -1012,6 +1027,9 @@ def replay(ctx, payload):
     case = payload.get('case', payload)
     if 'files' in case:
         return replay_order(ctx, case)
+    if case.get('part') == 'result-value':
+        import c18_values as V
+        return V.replay(ctx, case)
     c = dict(creators=[dict(name=x['name'], result=_tup(x['result']), delayed=_tup(x.get('delayed'))) for x in case['creators']],
              allow=case.get('allow', False), cmds=cmd_names() if not isinstance(case.get('cmds'), list) else case['cmds'])
     obs, tasks, site = observe(c, control=True)
